@@ -438,8 +438,24 @@ func registerIntrinsics(in *Interp) {
 	delete(I, "errors.Is")
 
 	// ---- time ----
+	// time.Time is modelled by its zero struct with the Unix seconds kept in
+	// the ext field; Now() is an arbitrary instant (harnesses fix
+	// SOURCE_DATE_EPOCH, so its value is never observed)
+	timeVal := func(in *Interp, sec *Term) Val {
+		t := in.prog.ImportedPackage("time").Pkg.Scope().Lookup("Time").Type()
+		z := in.zero(t).(Struct)
+		z[1] = sec
+		return z
+	}
 	I["time.Now"] = func(in *Interp, fr *frame, a []Val) Val {
-		panic(in.unsupported("time.Now"))
+		return timeVal(in, in.tt.BV(64, 0))
+	}
+	I["time.Unix"] = func(in *Interp, fr *frame, a []Val) Val {
+		return timeVal(in, a[0].(*Term))
+	}
+	I["(time.Time).Format"] = func(in *Interp, fr *frame, a []Val) Val {
+		sec := int64(in.Concretize(a[0].(Struct)[1].(*Term)))
+		return ConcStr(time.Unix(sec, 0).Format(concStr(a[1])))
 	}
 	I["time.ParseDuration"] = func(in *Interp, fr *frame, a []Val) Val {
 		s := a[0].(Str).norm()
